@@ -1090,6 +1090,8 @@ def item(draw):
         byk = draw(st.sampled_from(["none", "scalar", "scalar", "vector"]))
         by = None if byk == "none" else draw(_grid(0.0, 8.0)) if byk == "scalar" else \
             [draw(_grid(0.0, 8.0)) for _ in range(3)]
+        if byk == "scalar" and draw(st.integers(0, 5)) == 0:
+            by = 0.0  # an explicit distance of exactly 0 is a distance, not "no distance given"
         np_ = draw(pose())
         return {"k": "dir", "d": draw(st.sampled_from(sorted(DIRS))), "ref": ref,
                 "rp": draw(pose()), "rd": draw(dims3), "by": by, "nd": draw(dims3),
